@@ -181,6 +181,9 @@ def bounded_candidate(obl, timeout_ms=20000):
 def discharge(obl, tier='quick', second_opinion=False):
     """returns dict(status, backend, seconds, model, quantified)"""
     rl = RLIMIT_QUICK if tier == 'quick' else RLIMIT_THOROUGH
+    if z3.is_true(obl.goal):
+        # decided by term simplification while the path was executed (concrete shapes fold completely)
+        return {'backend': 'simplifier', 'seconds': 0.0, 'quantified': False, 'rlimit_used': 0, 'model': None, 'cvc5': None, 'status': 'proved'}
     quant = _has_quant(obl)
     sl = slice_assumptions(obl)
     if len(sl) < len(obl.assumptions):
